@@ -1,4 +1,4 @@
-SPECIFICATION Spec
+SPECIFICATION WalkSpec
 CONSTANTS
   Seeds <- SeedTexts
   InsertSeeds <- InsertSeedTexts
